@@ -60,16 +60,16 @@ SEMANTIC_RULES = {
     "C03": {"R1", "R4", "R5", "R6", "R7", "R6v", "R8v"},
     "C04": {"R1", "R2", "R3", "R4", "R9", "R10", "R11"},
     "C05": {"R1", "R2", "R3", "R6", "R8", "R9", "R10"},
-    "C06": {"R1", "R2", "R3", "R4", "R5", "R6v", "R8", "R8v"},
+    "C06": {"R1", "R2", "R3", "R4", "R5", "R6v", "R8", "R8v", "R9v"},
     "C07": {"R1s", "R1v", "R2", "R4", "R5v"},
     "C08": {"G2", "G6r", "G6v", "G8", "G8v", "G9"},
     "C09": {"R4", "R5"},
-    "C10": {"ENTRY", "PRIMv", "CLONEv", "BACKEND", "FTYPE", "OWN", "IMM", "UPD"},
+    "C10": {"ENTRY", "PRIMv", "CLONEv", "STATE", "BACKEND", "FTYPE", "OWN", "IMM", "UPD"},
     "C11": {"R1", "R5", "R6", "R7", "R9"},
     "C13": {"UNIQ", "LCA", "SIZED", "CONST", "XMODEL", "CONSTREJ", "DET", "EXPRv"},
     "C14": {"R1m", "R1t", "R1v", "R2", "R5"},
-    "C16": {"CLONEv", "R4v", "R6", "R7", "R8"},
-    "C17": {"R1", "R2", "R5", "R6", "R6w"},
+    "C16": {"CLONEv", "R4v", "R6", "R7", "R8", "R9a"},
+    "C17": {"R1", "R2", "R5", "R6", "R6w", "R3w"},
     "C18": {"R1", "R2", "R3", "R4", "R5", "R3v"},
     "C19": {"R1", "R2", "R3", "R3b", "R4", "R8", "R9", "R10", "R11", "A12", "R12"},
 }
